@@ -127,20 +127,26 @@ func (e *Exec) recordSend(s *ast.SendStmt, v Val) {
 	e.st.vars["sentval:"+exprText(s.Chan)] = v
 }
 
-func exprText(x ast.Expr) string {
+func exprText(x ast.Expr) string { return exprTextMap(x, nil) }
+
+// exprTextMap is exprText with the variable names mapped (contract side: names of renamed locals, see Exec.curName)
+func exprTextMap(x ast.Expr, f func(string) string) string {
 	switch y := x.(type) {
 	case *ast.Ident:
+		if f != nil {
+			return f(y.Name)
+		}
 		return y.Name
 	case *ast.SelectorExpr:
-		return exprText(y.X) + "." + y.Sel.Name
+		return exprTextMap(y.X, f) + "." + y.Sel.Name
 	case *ast.ParenExpr:
-		return exprText(y.X)
+		return exprTextMap(y.X, f)
 	case *ast.StarExpr:
-		return "*" + exprText(y.X)
+		return "*" + exprTextMap(y.X, f)
 	case *ast.CallExpr:
-		return exprText(y.Fun) + "()"
+		return exprTextMap(y.Fun, f) + "()"
 	case *ast.IndexExpr:
-		return exprText(y.X) + "[]"
+		return exprTextMap(y.X, f) + "[]"
 	}
 	return fmt.Sprintf("%T", x)
 }
@@ -824,6 +830,7 @@ func (e *Exec) runLoop(lp *loopParts) {
 			for i, it := range spec.Iteration {
 				ienv := e.loopEnv()
 				ienv.prev = iterStart
+				ienv.lenientLocals = true // a body local that is not bound on every path that ends the iteration is arbitrary
 				t := e.specBool(it, ienv)
 				e.oblige(fmt.Sprintf("iteration#%s.%d", name, i), "assert", it.Text, t)
 			}
